@@ -91,7 +91,7 @@ Fixpoint decode_kind (f : fd) (k : SchemaDefs.fkind) (t : str) : option xval :=
       if seq name (lit "pault.ag/go/debian/version.Version") then option_map XVer (V11.parse_u t)
       else if seq name (lit "pault.ag/go/debian/dependency.Dependency") then
         (match D3.parse t with D3.Ok d => Some (XDep d) | _ => None end)
-      else if seq name (lit "pault.ag/go/debian/dependency.Arch") then Some (XArch (A1.parse_arch t))
+      else if seq name (lit "pault.ag/go/debian/dependency.Arch") then option_map XArch (A1.parse_arch_opt t)
       else if seq name (lit "pault.ag/go/debian/control.FileListChangesFileHash") then chg_parse t
       else match struct_alg name with Some alg => hash_parse alg t | None => None end
   | SchemaDefs.KSlice k' =>
